@@ -136,7 +136,7 @@ CLAIMED = {
                 'read_facts_and_rules (unit loader; rule R14 writes its `for line in lines` as loop / next()): the file is rejected if it cannot be opened or a kept line ends in anything but - , . = ; - otherwise the text handed to separate_rules '
                 'consists of the kept lines (comments stripped, empty ones dropped) in order, separated by white space (a line break separates words), and the result is that text\'s segmentation with each rule trimmed. '
                 'PARTIAL: load_kb_from_file (parse_rule on each segment) is outside the proof.',
-        'note': 'Trusted: str_to_chars!/chars_to_string! as functions (R5), str::trim as a contiguous sub-sequence, char::is_ascii_digit, String::push (T3); io::Lines::next / line_reader yield the lines of the named file in order (assumed specification, T3); `stripped` is defined as what the pure function strip_comments returns. i32 depth counters: files below 2^31 characters.',
+        'note': 'load_kb_from_file itself is under proof (unit loadkb, DESIGN 8.43): the rules of the file parsed one by one and added in order, or an error. Trusted: str_to_chars!/chars_to_string! as functions (R5), str::trim as a contiguous sub-sequence, char::is_ascii_digit, String::push (T3); io::Lines::next / line_reader yield the lines of the named file in order (assumed specification, T3); `stripped` is defined as what the pure function strip_comments returns. i32 depth counters: files below 2^31 characters.',
         'technique': 'contract-based deductive verification (Verus) of extracted real code',
         'design_ref': 'DESIGN.md 5/C21 and 8.13',
     },
